@@ -283,7 +283,7 @@ func (e treeEngine) observeUndeclared(ctx *RunCtx, c *simrt.Chooser, d *Driver, 
 			} `json:"diagnostics"`
 		}
 		json.Unmarshal(m.Params, &p)
-		if p.URI != doc.URI {
+		if normURI(p.URI) != normURI(doc.URI) {
 			continue
 		}
 		found = true
@@ -357,7 +357,7 @@ func (e treeEngine) observeUndeclared(ctx *RunCtx, c *simrt.Chooser, d *Driver, 
 			} `json:"diagnostics"`
 		}
 		json.Unmarshal(m.Params, &p)
-		if p.URI != doc.URI {
+		if normURI(p.URI) != normURI(doc.URI) {
 			continue
 		}
 		for _, dg := range p.Diagnostics {
